@@ -685,6 +685,7 @@ spifconf_shell_expand(spif_charptr_t s)
                   }
                   EnvVar[k] = 0;
                   tmp = (spif_charptr_t) getenv((char *) EnvVar);
+                  FREE(EnvVar);
                   if (tmp && *tmp) {
                       spiftool_safe_strncpy(newbuff + j, tmp, max - j);
                       cnt1 = strlen((char *) tmp) - 1;
